@@ -86,8 +86,9 @@ type Session struct {
 	DoneFlag      bool
 	UserID        string
 	Deleted       bool
-	CreatedBy     int // task id, -1 preseeded
-	SP            int // SP index resolved from AppID at creation (-2 unknown)
+	CreatedBy     int    // task id, -1 preseeded
+	Tenant        string // storage flavour TenantSessions: the issuer value of the context the request was persisted under ("" = every tenant)
+	SP            int    // SP index resolved from AppID at creation (-2 unknown)
 	Version       int
 }
 
@@ -134,20 +135,21 @@ type SignRec struct {
 }
 
 type CallRec struct {
-	Seq      int
-	Op       string
-	Args     []string
-	Fault    string
-	Err      string
-	Ret      string
-	Snap     *Session // snapshot returned (AuthRequestByID / CreateAuthRequest)
-	SPIdx    int      // SP returned by GetEntityByID (-2 none)
-	SPVer    int
-	SPCfg    *SPCfg
-	KeyVer   int
-	UserIdx  int
-	T        time.Time
-	Abandond bool
+	Seq       int
+	Op        string
+	Args      []string
+	Fault     string
+	Err       string
+	Ret       string
+	Snap      *Session // snapshot returned (AuthRequestByID / CreateAuthRequest)
+	SPIdx     int      // SP returned by GetEntityByID (-2 none)
+	SPVer     int
+	SPCfg     *SPCfg
+	KeyVer    int
+	CtxIssuer string // the issuer value of the context the library passed to this call (what a multi-tenant storage selects its tenant by)
+	UserIdx   int
+	T         time.Time
+	Abandond  bool
 	// CreateAuthRequest only: the registration of the persisted request's issuer at the moment of the persist (registry model)
 	IssuerSP    int // -2: no such registration
 	IssuerSPVer int
@@ -1533,7 +1535,7 @@ func (s *simStorage) enter(ctx context.Context, op string, args ...string) (*Tas
 		s.w.probe("storage_gave_up_with_context_error")
 	}
 	fault = normFault(op, fault)
-	rec := &CallRec{Op: op, Args: args, Fault: fault, SPIdx: -2, UserIdx: -1, KeyVer: -1}
+	rec := &CallRec{Op: op, Args: args, Fault: fault, SPIdx: -2, UserIdx: -1, KeyVer: -1, CtxIssuer: provider.IssuerFromContext(ctx)}
 	if t != nil {
 		rec.T = time.Now()
 		rec.Abandond = t.Abandoned
@@ -1810,6 +1812,17 @@ func (s *simStorage) CreateAuthRequest(ctx context.Context, req *samlp.AuthnRequ
 		rec.IssuerSP, rec.IssuerSPVer, rec.IssuerSPCfg = n.Idx, n.Version, &c
 	}
 	se.ID = s.w.sessionID(se.Idx)
+	if s.w.cfg.TenantSessions {
+		// per-tenant counter: the same id exists in several tenants
+		se.Tenant = provider.IssuerFromContext(ctx)
+		n := 0
+		for _, o := range s.w.sessions {
+			if o.Tenant == se.Tenant {
+				n++
+			}
+		}
+		se.ID = fmt.Sprintf("ar%d-t", n)
+	}
 	s.w.sessions = append(s.w.sessions, se)
 	snap := *se
 	s.w.mu.Unlock()
@@ -1819,7 +1832,9 @@ func (s *simStorage) CreateAuthRequest(ctx context.Context, req *samlp.AuthnRequ
 }
 
 // typedNil: storage flavour — the error comes with a nil pointer of the record type inside the interface value, as in
+//
 //	var r *record; if err := row.Scan(...); err != nil { return r, err }
+//
 // The interface value is then not nil although nothing can be read from it.
 func (s *simStorage) typedNil() models.AuthRequestInt {
 	s.w.probe("storage_error_with_typed_nil_record")
@@ -1839,8 +1854,13 @@ func (s *simStorage) AuthRequestByID(ctx context.Context, id string) (models.Aut
 	}
 	s.w.mu.Lock()
 	var found *Session
+	otherTenant := false
 	for _, se := range s.w.sessions {
 		if se.ID == id && !se.Deleted {
+			if s.w.cfg.TenantSessions && se.Tenant != "" && se.Tenant != provider.IssuerFromContext(ctx) {
+				otherTenant = true
+				continue
+			}
 			found = se
 		}
 	}
@@ -1849,6 +1869,9 @@ func (s *simStorage) AuthRequestByID(ctx context.Context, id string) (models.Aut
 		snap = *found
 	}
 	s.w.mu.Unlock()
+	if otherTenant {
+		s.w.probe("same_id_exists_in_another_tenant")
+	}
 	if found == nil {
 		rec.Err = "not found"
 		if s.w.cfg.TypedNil {
